@@ -350,7 +350,7 @@ func Chmod(fs FS, name string, mode FileMode) error {
 		return &PathError{Op: "chmod", Path: name, Err: err}
 	}
 	defer func() { _ = file.Close() }()
-	return ChmodFile(file, mode)
+	return fileErrPath(ChmodFile(file, mode), name)
 }
 
 // Chown attempts to call an optimized fs.Chown(), falls back to opening the file and running file.Chown().
@@ -368,7 +368,7 @@ func Chown(fs FS, name string, uid, gid int) error {
 		return &PathError{Op: "chown", Path: name, Err: err}
 	}
 	defer func() { _ = file.Close() }()
-	return ChownFile(file, uid, gid)
+	return fileErrPath(ChownFile(file, uid, gid), name)
 }
 
 // Chtimes attempts to call an optimized fs.Chtimes(), falls back to opening the file and running file.Chtimes().
@@ -386,7 +386,7 @@ func Chtimes(fs FS, name string, atime time.Time, mtime time.Time) error {
 		return &PathError{Op: "chtimes", Path: name, Err: err}
 	}
 	defer func() { _ = file.Close() }()
-	return ChtimesFile(file, atime, mtime)
+	return fileErrPath(ChtimesFile(file, atime, mtime), name)
 }
 
 // ReadDir attempts to call an optimized fs.ReadDir(), falls back to io/fs.ReadDir().
@@ -429,6 +429,7 @@ func WriteFullFile(fs FS, name string, data []byte, perm FileMode) error {
 	f, err := OpenFile(fs, name, FlagWriteOnly|FlagCreate|FlagTruncate, perm)
 	if err == nil {
 		_, err = WriteFile(f, data)
+		err = fileErrPath(err, name)
 		closeErr := f.Close()
 		if err == nil {
 			err = closeErr
@@ -443,4 +444,12 @@ func Symlink(fs FS, oldname, newname string) error {
 		return fs.Symlink(oldname, newname)
 	}
 	return &LinkError{Op: "symlink", Old: oldname, New: newname, Err: ErrNotImplemented}
+}
+
+// fileErrPath makes an error from an operation on the opened file 'name' refer to that path. A file only knows its base name.
+func fileErrPath(err error, name string) error {
+	if pathErr, ok := err.(*PathError); ok {
+		return &PathError{Op: pathErr.Op, Path: name, Err: pathErr.Err}
+	}
+	return err
 }
